@@ -117,6 +117,12 @@ func decisionTable(start *ssa.BasicBlock, cfg dtConfig) []dtLeaf {
 				t, f, ok := split(c.X, s, path, depth+1)
 				return f, t, ok
 			}
+			// table[c] with table a parameter bound to a byte set for this summary
+			if ia, ok := c.X.(*ssa.IndexAddr); ok && c.Op == token.MUL && (strip(ia.Index) == cfg.Var || cfg.Aliases[strip(ia.Index)]) {
+				if ts, ok := paramSetOf(ia.X); ok {
+					return s.Intersect(ts), s.Minus(ts), true
+				}
+			}
 			// table[c]: load of &table[c] with table a package-level array
 			if ia, ok := c.X.(*ssa.IndexAddr); ok && c.Op == token.MUL && cfg.Tables != nil {
 				if g, ok := ia.X.(*ssa.Global); ok && strip(ia.Index) == cfg.Var {
@@ -153,6 +159,9 @@ func decisionTable(start *ssa.BasicBlock, cfg dtConfig) []dtLeaf {
 				}
 			}
 		case *ssa.Index:
+			if ts, ok := paramSetOf(c.X); ok && (strip(c.Index) == cfg.Var || cfg.Aliases[strip(c.Index)]) {
+				return s.Intersect(ts), s.Minus(ts), true
+			}
 			if cfg.Tables != nil {
 				if u, ok := c.X.(*ssa.UnOp); ok {
 					if g, ok := u.X.(*ssa.Global); ok && strip(c.Index) == cfg.Var {
@@ -163,6 +172,12 @@ func decisionTable(start *ssa.BasicBlock, cfg dtConfig) []dtLeaf {
 				}
 			}
 		case *ssa.Call:
+			// a predicate parameter bound to a byte set for this summary
+			if !c.Common().IsInvoke() && len(c.Common().Args) == 1 && (strip(c.Common().Args[0]) == cfg.Var || cfg.Aliases[strip(c.Common().Args[0])]) {
+				if ts, ok := paramSetOf(c.Common().Value); ok {
+					return s.Intersect(ts), s.Minus(ts), true
+				}
+			}
 			// a pure byte predicate of the repository applied to the variable: use its own table
 			if g := staticCallee(c.Common()); g != nil && g.Blocks != nil && len(g.Params) == 1 && len(c.Common().Args) == 1 && strip(c.Common().Args[0]) == cfg.Var &&
 				g.Pkg != nil && strings.HasPrefix(g.Pkg.Pkg.Path(), modulePath) && depth < 4 {
